@@ -325,3 +325,10 @@ package core
 //@   ghost asy = d.asynch at call:Lock#1
 //@   before call:AfterFunc#1 assert d.active == at("call:Lock#2", d.active)
 //@   ensures !isnil(result) && result != mangos.ErrClosed && !old(redial) && !asy ==> !d.active
+
+// ---- round 8: the socket default is pushed only when the caller gave no value (0 is a value) ----
+//@ func (*socket).NewListener
+//@   before call:SetOption#2 assert !has(options, mangos.OptionMaxRecvSize)
+//@
+//@ func (*socket).NewDialer
+//@   before call:SetOption#3 assert !has(options, mangos.OptionMaxRecvSize)
